@@ -1,0 +1,33 @@
+//go:build verif
+
+package calcium
+
+import (
+	"github.com/projecteru2/core/resource"
+	"github.com/projecteru2/core/store"
+	"github.com/projecteru2/core/wal"
+)
+
+// Accessors for the verification harness (build tag verif only): the harness wraps the
+// store / resource manager / WAL of a Calcium instance with recording, fault-injecting decorators.
+
+// VerifStore returns the store calcium uses.
+func (c *Calcium) VerifStore() store.Store { return c.store }
+
+// VerifSetStore replaces the store calcium uses.
+func (c *Calcium) VerifSetStore(s store.Store) { c.store = s }
+
+// VerifRmgr returns the resource manager calcium uses.
+func (c *Calcium) VerifRmgr() resource.Manager { return c.rmgr }
+
+// VerifSetRmgr replaces the resource manager calcium uses.
+func (c *Calcium) VerifSetRmgr(m resource.Manager) { c.rmgr = m }
+
+// VerifWAL returns the WAL calcium uses.
+func (c *Calcium) VerifWAL() wal.WAL { return c.wal }
+
+// VerifSetWAL replaces the WAL calcium uses.
+func (c *Calcium) VerifSetWAL(w wal.WAL) { c.wal = w }
+
+// VerifPoolRunning reports the number of running goroutines of calcium's worker pool.
+func (c *Calcium) VerifPoolRunning() int { return c.pool.Running() }
